@@ -219,13 +219,16 @@ class Flow:
                 self._add(('l', l), ('lf', l, f))
 
     # ---- queries
-    def forward(self, sources, skip_mem=False):
+    def forward(self, sources, skip_mem=False, stop=()):
+        """`stop`: nodes the taint does not enter (e.g. the unit result of a write call, which carries no count)."""
         seen = set(sources)
         work = list(sources)
         while work:
             n = work.pop()
             for m in self.edges.get(n, ()):
                 if skip_mem and m[0] == 'm':
+                    continue
+                if m in stop:
                     continue
                 if m not in seen:
                     seen.add(m)
